@@ -57,7 +57,7 @@ Variants == { << 3, 4 >>, << 4, 5 >>, << 3, 6 >>, << 22, 23 >>, << 22, 24 >>, <<
               << 26, 27 >>, << 41, 42 >>, << 41, 43 >>, << 50, 51 >>, << 59, 60 >>, << 28, 29 >>,
               << 5, 3 >>, << 23, 22 >>, << 42, 41 >>, << 1, 2 >>, << 48, 55 >>, << 33, 34 >>,
               << 63, 67 >>, << 11, 71 >>, << 71, 11 >>, << 72, 73 >>, << 73, 72 >>,
-              << 3, 76 >>, << 76, 3 >>, << 74, 75 >>, << 17, 113 >>, << 113, 17 >>,
+              << 3, 76 >>, << 76, 3 >>, << 74, 75 >>, << 17, 113 >>, << 113, 17 >>, << 115, 116 >>, << 116, 115 >>,
               \* (round 2) spelt out / defaults omitted; tree / DAG / parsed
               << 79, 80 >>, << 80, 79 >>, << 78, 81 >>, << 78, 90 >>,
               << 98, 97 >>, << 97, 98 >>, << 98, 99 >>, << 99, 98 >>, << 101, 100 >>, << 100, 101 >>,
